@@ -31,7 +31,7 @@ var commonAssumptions = []string{
 var props = map[string]propInfo{
 	"C01": {
 		Engine: "pbfsim", Race: true, Level: "exploration",
-		QuickRuns: 12000, ThoroughRuns: 400000, QuickSecs: 600, ThoroughSecs: 4 * 3600, Chunk: 400,
+		QuickRuns: 8000, ThoroughRuns: 400000, QuickSecs: 600, ThoroughSecs: 4 * 3600, Chunk: 400,
 		Rule:   "a run is one PBF file written from a model by the independent writer h/pbfwire (0-12, sometimes up to 40 blocks; header and each of its fields optional; per block granularity/offsets/date granularity present or absent with non-default values, raw or zlib, dense nodes with DenseInfo and each of its six columns and keys_vals present or absent, ways/relations with Info and each field optional, node locations on ways, empty ways/relations, changeset groups, unknown fields, parameter fields before or after the groups; optional parts are toggled with period = decoder count; 1 file in 8 may contain plain Node groups; 1 in 24 has a block with 8001-9500 dense nodes; 1 in 8 starts with a data block) scanned once at a decoder count from {1,2,3,4,5,7,10,11,16,32} under a drawn reader chunking and delay policy. Non-trivial: two blocks decoded by the same worker differ in their optional parts, or a block has non-default granularity/offsets/date granularity. distinct = distinct (file, decoder count, interleaving hash) among non-trivial executions",
 		Probes: []string{"optional-parts-differ-on-one-worker", "non-default-granularity-or-offset", "more-decoders-than-blocks", "unbuffered-channels", "file-with-plain-node-group", "block-with-more-than-8000-elements", "decoders-interleaved-mid-block"},
 		Real:   pbfReal, Simulated: pbfSim,
